@@ -38,6 +38,7 @@ type dm struct {
 	auto         bool
 	transientDen int
 	concurrent   bool
+	opts         gen.Opts // name space of the generated Specs (narrow in half of the runs: collisions abound)
 }
 
 // genContent draws a file content: mostly valid, sometimes invalid.
@@ -47,7 +48,7 @@ func (d *dm) genContent(name string) *gen.Meta {
 	if src.Bool(1, 4) {
 		return d.reg.Invalid(src, "")
 	}
-	return d.reg.Valid(src, asJSON, gen.Opts{})
+	return d.reg.Valid(src, asJSON, d.opts)
 }
 
 func (d *dm) listSpecFiles() []string {
@@ -140,7 +141,7 @@ func (d *dm) change() {
 			old := d.reg.Lookup(e.Data)
 			var m *gen.Meta
 			if old != nil && old.Valid && src.Bool(2, 3) {
-				m = d.reg.Revise(src, old, gen.Opts{})
+				m = d.reg.Revise(src, old, d.opts)
 			} else {
 				m = d.genContent(f)
 			}
@@ -228,7 +229,7 @@ func (d *dm) change() {
 			dir := dirs[src.Intn(len(dirs))]
 			sub := dir + "/sub.yaml"
 			if p.Mkdir(sub, 0o755) == 0 {
-				m := d.reg.Valid(src, false, gen.Opts{})
+				m := d.reg.Valid(src, false, d.opts)
 				p.WriteFile(sub+"/inner.yaml", m.Content, 0o644)
 				d.r.Notef("mkdir %s with inner.yaml = %s", sub, m)
 				return
@@ -272,6 +273,12 @@ func dirmodel(r *core.Run, cfg dmConfig) {
 		r.Knob("coarse_mtime", true)
 	}
 	d := &dm{env: e, cfg: cfg, auto: auto, transientDen: transientDen, concurrent: concurrent}
+	if src.Bool(1, 2) {
+		// one kind, two device names: most files define the same devices, so
+		// precedence, shadowing and conflicts are the rule rather than the exception
+		d.opts = gen.Opts{Vendors: []string{"vendor.com"}, Classes: []string{"gpu"}, DevNames: []string{"dev0", "dev1"}}
+		r.Knob("narrow_names", true)
+	}
 	// directory list
 	src.Begin("dirs")
 	n := 1 + src.Intn(4)
@@ -630,7 +637,7 @@ func (d *dm) faultChange() {
 				p.Symlink("/staging/adir", path)
 				d.r.Notef("symlink %s -> a directory", path)
 			case 3:
-				m := d.reg.Valid(src, strings.HasSuffix(name, ".json"), gen.Opts{})
+				m := d.reg.Valid(src, strings.HasSuffix(name, ".json"), d.opts)
 				p.MkdirAll("/staging", 0o755)
 				t := fmt.Sprintf("/staging/t%d", d.w.FS.NextTemp())
 				p.WriteFile(t, m.Content, 0o644)
